@@ -777,6 +777,8 @@ pub fn run(sim: &Sim, prop: &str, tier: Tier) -> Outcome {
             }
         } else if prop == "C17" && model.live.values().any(|h| matches!(h.beh, Beh::Registrar)) && sim.chance(if model.live.len() < 24 && !long_history { 30 } else { 1 }) {
             5 // a delivery during which handlers register further handlers
+        } else if prop == "C17" && model.live.len() >= 12 && sim.chance(8) {
+            6 // a burst of registry operations with no delivery in between
         } else if sim.chance(6) {
             4 // an exchange in the middle of the history (judged by C18, not here)
         } else if long_history {
@@ -1017,6 +1019,80 @@ pub fn run(sim: &Sim, prop: &str, tier: Tier) -> Outcome {
                 }
                 sim.probe("exchange_inside_history");
                 ops_log.push("exchange".to_string());
+            }
+            // ------------------ burst of removals and additions, no delivery between
+            6 => {
+                // most of the table is unregistered in one go (16 or more removals without a
+                // tick or send in between), then a few handlers are registered; the reveal that
+                // follows shows whether anything live was lost or anything removed still fires
+                let n_rm = (10 + sim.draw(20) as usize).min(model.live.len() - 1);
+                let mut failed: Option<Outcome> = None;
+                for _ in 0..n_rm {
+                    let lv = live_by_token(&model);
+                    let id = lv[sim.draw(lv.len() as u32) as usize].1;
+                    if let Some(t) = twin.as_mut() {
+                        let _ = sut(|| t.proto.remove_packet_handler(id));
+                    }
+                    let r = sut(|| node.proto.remove_packet_handler(id));
+                    sim.event(EV_OP, 16, model.live[&id].token as u64, || format!("remove_packet_handler({}) [burst] -> {:?}", id, r));
+                    ops_log.push(format!("rm{}", id));
+                    match r {
+                        Ok(Ok(())) => {
+                            let h = model.live.remove(&id).unwrap();
+                            model.dead.insert(h.token);
+                            model.removed_ids.push(id);
+                        }
+                        other => {
+                            failed = Some(fail(prop, "C17.remove", format!("removing the registered id {} returned {:?}", id, other), "remove-registered-failed".to_string()));
+                            break;
+                        }
+                    }
+                }
+                if let Some(o) = failed {
+                    return o;
+                }
+                let n_add = 1 + sim.draw(3);
+                for _ in 0..n_add {
+                    let capture_all = sim.flag();
+                    let token = model.next_token;
+                    model.next_token += 1;
+                    let h = MHandler { token, capture_all, beh: Beh::Plain, zst: None };
+                    let boxed = make_handler(sim, "n", &h, &node.hlog);
+                    if let Some(t) = twin.as_mut() {
+                        let b2 = make_handler(sim, "t", &h, &t.hlog);
+                        let _ = sut(|| t.proto.add_packet_handler(b2, capture_all));
+                    }
+                    let r = sut(|| node.proto.add_packet_handler(boxed, capture_all));
+                    sim.event(EV_OP, 1, token as u64, || format!("add_packet_handler(#{} capture_all={}) [burst] -> {:?}", token, capture_all, r));
+                    ops_log.push(format!("add#{}", token));
+                    match r {
+                        Ok(Ok(id)) => {
+                            if model.live.contains_key(&id) {
+                                return fail(
+                                    prop,
+                                    "C17.unique",
+                                    format!("add_packet_handler returned id {} which is the id of the live handler #{} (after a burst of {} removals)", id, model.live[&id].token, n_rm),
+                                    "duplicate-id".to_string(),
+                                );
+                            }
+                            if model.removed_ids.contains(&id) {
+                                id_reused = true;
+                                sim.probe("id_reused_after_removal");
+                            }
+                            model.live.insert(id, h);
+                        }
+                        other => return fail(prop, "C17.unique", format!("add_packet_handler failed: {:?}", other), "add-failed".to_string()),
+                    }
+                }
+                if let Some(t) = twin.as_mut() {
+                    let (o, f) = twin_reveal(t, own);
+                    twin_own = o;
+                    twin_foreign = f;
+                }
+                if n_rm >= 16 {
+                    sim.probe("burst_of_16_or_more_removals_without_delivery");
+                }
+                pending_reveal = true;
             }
             // ------------------------- delivery with registrations from inside
             5 => {
